@@ -79,6 +79,27 @@ func runC20(p *core.Prog, r *core.Report) {
 		return
 	}
 	r.Anchor("launcher", fnName(launcher))
+	// path rules run on the launcher's inlined view (helpers that subscribe to the signal, build the command, … are seen
+	// in place); the other functions of the package are looked at as they are
+	{
+		src := rootFn(launcher)
+		view := p.Inl(src)
+		var nf []*ssa.Function
+		for _, fn := range fns {
+			if rootFn(fn) != src {
+				nf = append(nf, fn)
+			}
+		}
+		fns = append(nf, sx.WithClosures(view)...)
+		launcher, startCall = nil, nil
+		for _, fn := range sx.WithClosures(view) {
+			sx.Instrs(fn, func(in ssa.Instruction) {
+				if c, ok := in.(*ssa.Call); ok && isStart(c) {
+					launcher, startCall = fn, c
+				}
+			})
+		}
+	}
 
 	// ---- R1
 	cut := sx.Cut{Instrs: map[ssa.Instruction]bool{}}
@@ -217,7 +238,8 @@ func runC20(p *core.Prog, r *core.Report) {
 		r.Check(okAll, "C20-R2", fnName(launcher)+": returns only through the wait", p.Pos(startCall.Pos()), "after a successful Start every return passes the blocking select", "after a successful Start the launcher can return without waiting for Done() or the daemon's exit")
 		// exit channel closed only after Wait
 		okClose, nClose := true, 0
-		for _, fn := range sx.WithClosures(selFn) {
+		for _, gb := range goBodies(p, selFn) {
+			fn := gb.fn
 			sx.Instrs(fn, func(in ssa.Instruction) {
 				c, ok := in.(*ssa.Call)
 				if !ok {
@@ -244,15 +266,42 @@ func runC20(p *core.Prog, r *core.Report) {
 	{
 		nilE, _ := sx.NilEdges(startCall)
 		var writes []*ssa.Call
+		// the pid leaves through encoding/binary: binary.Write(os.Stdout, order, pid), or order.PutUint32(buf, pid) followed
+		// by os.Stdout.Write(buf)
+		pidArg := map[*ssa.Call]ssa.Value{}
+		var putCalls []*ssa.Call
 		sx.Instrs(launcher, func(in ssa.Instruction) {
-			if c, ok := in.(*ssa.Call); ok && sx.CalleeName(c) == "encoding/binary.Write" {
+			c, ok := in.(*ssa.Call)
+			if !ok {
+				return
+			}
+			n := sx.CalleeName(c)
+			switch {
+			case n == "encoding/binary.Write":
 				writes = append(writes, c)
+				pidArg[c] = c.Call.Args[2]
+			case strings.HasPrefix(n, "(encoding/binary.") && strings.Contains(n, ").PutUint"):
+				putCalls = append(putCalls, c)
 			}
 		})
+		for _, pc := range putCalls {
+			args := sx.Args(pc)
+			// the stdout write that follows the encoding step stands for the write of the pid
+			sx.Instrs(launcher, func(in ssa.Instruction) {
+				c, ok := in.(*ssa.Call)
+				if !ok || sx.CalleeName(c) != "(*os.File).Write" || !sx.Origins(sx.Args(c)[0])["global:Stdout"] {
+					return
+				}
+				if sx.MustPass(launcher, nil, c, sx.Cut{Instrs: map[ssa.Instruction]bool{pc: true}}) {
+					writes = append(writes, c)
+					pidArg[c] = args[len(args)-1]
+				}
+			})
+		}
 		okW := len(writes) > 0
 		detail := "no binary.Write of the pid found"
 		for _, w := range writes {
-			org := sx.Origins(w.Call.Args[2])
+			org := sx.Origins(pidArg[w])
 			if !org["field:Process.Pid"] {
 				okW = false
 				detail = "the value written to stdout derives from " + keys(org) + ", not from cmd.Process.Pid"
@@ -268,7 +317,7 @@ func runC20(p *core.Prog, r *core.Report) {
 		}
 		r.Check(okW, "C20-R3", fnName(launcher)+": pid written on the success edge, before the wait", p.FuncPos(launcher), "binary.Write(cmd.Process.Pid) only after Start succeeded and before the select", detail)
 	}
-	launch := p.Func("daemon", "Launch")
+	launch := p.Inl(p.Func("daemon", "Launch"))
 	if launch == nil {
 		r.Fail("C20-R3", "anchor Launch", "-", "exported function Launch not found")
 	} else {
@@ -294,7 +343,7 @@ func runC20(p *core.Prog, r *core.Report) {
 				switch x := in.(type) {
 				case *ssa.BinOp:
 					c, ok := x.X.(*ssa.Call)
-					if !ok || sx.CalleeName(c) != "(*bytes.Buffer).Len" {
+					if !ok || (sx.CalleeName(c) != "(*bytes.Buffer).Len" && sx.CalleeName(c) != "(*strings.Builder).Len") {
 						return
 					}
 					k, isC := sx.ConstInt(x.Y)
@@ -312,7 +361,8 @@ func runC20(p *core.Prog, r *core.Report) {
 						}
 					}
 				case *ssa.Call:
-					if sx.CalleeName(x) == "encoding/binary.Read" {
+					switch sx.CalleeName(x) {
+					case "encoding/binary.Read", "io.ReadFull", "io.ReadAtLeast":
 						readCall = x
 					}
 				}
@@ -419,8 +469,17 @@ func runC20(p *core.Prog, r *core.Report) {
 			var out []string
 			sx.Instrs(fn, func(in ssa.Instruction) {
 				if st, ok := in.(*ssa.Store); ok {
-					if s, ok := sx.ConstString(st.Val); ok && strings.Contains(s, "=") {
-						out = append(out, s)
+					// a constant, or constants joined with + (a helper taking the role as a parameter, expanded with its argument)
+					str, all := "", true
+					for _, part := range concatParts(st.Val) {
+						if s, ok := sx.ConstString(part); ok {
+							str += s
+						} else {
+							all = false
+						}
+					}
+					if all && strings.Contains(str, "=") {
+						out = append(out, str)
 					}
 				}
 			})
@@ -472,7 +531,7 @@ func runC20(p *core.Prog, r *core.Report) {
 		}
 		ok1, d1 := find(envConsts(launcher), func(c ssa.CallInstruction) bool { return sx.StaticCallee(c) == nil && !c.Common().IsInvoke() })
 		r.Check(ok1, "C20-R4", "daemon flag set by the launcher selects the handler in Run", p.FuncPos(runFn), d1+" → registered handler", "the launcher starts the daemon with "+d1+" but Run does not dispatch that value to the handler")
-		ok2, d2 := find(envConsts(launch), func(c ssa.CallInstruction) bool { return sx.StaticCallee(c) == launcher })
+		ok2, d2 := find(envConsts(launch), func(c ssa.CallInstruction) bool { return sameFn(sx.StaticCallee(c), launcher) })
 		r.Check(ok2, "C20-R4", "launcher flag set by Launch selects the launcher in Run", p.FuncPos(runFn), d2+" → "+fnName(launcher), "Launch starts the launcher with "+d2+" but Run does not dispatch that value to "+fnName(launcher))
 	}
 }
@@ -515,6 +574,41 @@ func sameChan(a, b ssa.Value) bool {
 	return strip(a) == strip(b)
 }
 
+// goBody is code that runs on behalf of fn: fn itself, its closures, and the (inlined views of the) named module
+// functions it starts with a go statement, with their parameters bound to the go statement's arguments.
+type goBody struct {
+	fn   *ssa.Function
+	bind map[ssa.Value]ssa.Value
+}
+
+func goBodies(p *core.Prog, fn *ssa.Function) []goBody {
+	var out []goBody
+	for _, f := range sx.WithClosures(fn) {
+		out = append(out, goBody{f, nil})
+		sx.Instrs(f, func(in ssa.Instruction) {
+			g, ok := in.(*ssa.Go)
+			if !ok {
+				return
+			}
+			callee := sx.StaticCallee(g)
+			if callee == nil || callee.Parent() != nil || !p.InModule(callee) || callee.Blocks == nil {
+				return
+			}
+			v := p.Inl(callee)
+			bind := map[ssa.Value]ssa.Value{}
+			for i, prm := range v.Params {
+				if i < len(g.Call.Args) {
+					bind[prm] = g.Call.Args[i]
+				}
+			}
+			for _, vf := range sx.WithClosures(v) {
+				out = append(out, goBody{vf, bind})
+			}
+		})
+	}
+	return out
+}
+
 // closedAfterWait: ch is closed (only) in a closure of fn after cmd.Wait.
 func closedAfterWait(p *core.Prog, fn *ssa.Function, ch ssa.Value) bool {
 	ch = sx.Unspill(ch)
@@ -524,8 +618,8 @@ func closedAfterWait(p *core.Prog, fn *ssa.Function, ch ssa.Value) bool {
 		}
 	}
 	found := false
-	for _, f := range sx.WithClosures(fn) {
-		sx.Instrs(f, func(in ssa.Instruction) {
+	for _, gb := range goBodies(p, fn) {
+		sx.Instrs(gb.fn, func(in ssa.Instruction) {
 			c, ok := in.(*ssa.Call)
 			if !ok {
 				return
@@ -536,6 +630,9 @@ func closedAfterWait(p *core.Prog, fn *ssa.Function, ch ssa.Value) bool {
 					if bnd := sx.FreeVarBinding(fv); bnd != nil {
 						arg = sx.Unspill(bnd)
 					}
+				}
+				if a, ok := gb.bind[arg]; ok {
+					arg = sx.Unspill(a)
 				}
 				if arg == ch {
 					found = true
